@@ -644,3 +644,62 @@ func EFXGlobals(c *Ctx, cfg string, an *efx.Analyzer) {
 		}
 	}
 }
+
+// EFXPolicy (EFX-POLICY): the who-may-write side of "immutable by policy".
+// EFX-INDEP lets Set / Clone share group descriptors, moduli and DST tags
+// because nothing writes them after construction; this rule checks that
+// claim: no method of any point / scalar implementation may write storage
+// reached *through* such a referent from its receiver (P0.g*.P…, P0.dst[]).
+// Constructors and parameter setters of the descriptor types themselves are
+// not methods of value types and are outside the rule.
+func EFXPolicy(c *Ctx, cfg string, an *efx.Analyzer) {
+	p := c.Prog(cfg)
+	if p == nil {
+		return
+	}
+	for _, it := range c.implTypes(p) {
+		if it.Kind == "xof" {
+			continue
+		}
+		ms := types.NewMethodSet(types.NewPointer(it.Named))
+		for i := 0; i < ms.Len(); i++ {
+			fn := p.Method(it.Named, ms.At(i).Obj().Name())
+			if fn == nil || len(fn.Blocks) == 0 || fn.Synthetic != "" {
+				continue
+			}
+			s := an.Summary(fn)
+			var bad []efx.Path
+			for w := range s.Writes {
+				if w.Root() != "P0" {
+					continue
+				}
+				if throughPolicyPointer(it.Named, w) || throughDST(it.Named, w) {
+					bad = append(bad, w)
+				}
+			}
+			sort.Slice(bad, func(i, j int) bool { return bad[i] < bad[j] })
+			site := "writes nothing reached through an immutable-by-policy referent"
+			if len(bad) > 0 {
+				c.R.Bad("EFX-POLICY", shortFn(fn), site, p.FnPos(fn), "may write "+describeWrites(p, s, bad))
+			} else {
+				c.R.Ok("EFX-POLICY", shortFn(fn), site, p.FnPos(fn), "", true)
+			}
+		}
+	}
+}
+
+// throughDST: the path writes the bytes of a `dst` tag field (shared between
+// every point derived from one suite).
+func throughDST(nt *types.Named, p efx.Path) bool {
+	sel := p.Sel()
+	i := strings.Index(sel, ".dst")
+	if i < 0 {
+		return false
+	}
+	rest := sel[i+len(".dst"):]
+	if rest == "" || !(rest[0] == '*' || rest[0] == '[') {
+		return false
+	}
+	t := typeAt(nt, sel[:i+len(".dst")])
+	return t != nil && core.Short(types.TypeString(t, nil)) == "[]byte"
+}
